@@ -133,7 +133,7 @@ static unsigned fnv(const char *s, size_t n)
 }
 
 /* ------------------------------------------------------------------ audit walker */
-static unsigned short cnt_sub[64][0x800];
+static unsigned cnt_sub[64][0x800];
 static const char *audit(void)
 {
 	cache_network *cn, *cn1; cache_page *cp, *cp1; unsigned b, n_pri = 0, n_ref = 0, n_live_nets = 0;
@@ -201,6 +201,17 @@ static const char *audit(void)
 		}
 	for (i = 0; i < n_nh; ++i)
 		if (nh_held[i]) { if (nh[i]->ref_count == 0 || nh[i]->cache != ca) return "held-net"; }
+	/* the cache is a map: at most one retrievable version per (network, page, subpage) - reported last,
+	   everything else is still checked on a state with duplicates (finding F17) */
+	for (b = 0; b < HASH_SIZE; ++b)
+		FOR_ALL_NODES (cp, cp1, &ca->hash[b], hash_node) {
+			struct node *nd;
+			for (nd = cp->hash_node._succ; nd != &ca->hash[b]; nd = nd->_succ) {
+				cache_page *q = PARENT (nd, cache_page, hash_node);
+				if (q->network == cp->network && q->pgno == cp->pgno && q->subno == cp->subno)
+					return "dup-key";
+			}
+		}
 	return "ok";
 }
 
